@@ -71,7 +71,10 @@ func UseWallClock(on bool) {
 
 // StartMockAPI starts a real access.API with its own stores; jwt.TimeFunc and the deny store's clock are
 // the harness's (shared by every mock API of the process).
-func StartMockAPI(ae bool) *Env {
+func StartMockAPI(ae bool) *Env { return StartMockAPISecret(ae, "") }
+
+// StartMockAPISecret is StartMockAPI with a given secret ("" = one derived from the port).
+func StartMockAPISecret(ae bool, fixedSecret string) *Env {
 	log.SetOutput(ioutil.Discard)
 	log.SetLevel(log.PanicLevel)
 	if !mockInstalled {
@@ -97,6 +100,9 @@ func StartMockAPI(ae bool) *Env {
 	wg.Add(1)
 	u := "http://127.0.0.1:" + strconv.Itoa(port)
 	secret := "acc-secret-" + strconv.Itoa(port)
+	if fixedSecret != "" {
+		secret = fixedSecret
+	}
 	cs := ttlcode.NewDefaultCodeStore()
 	cfg := access.Config{
 		AllowNoBookingID: ae,
@@ -221,22 +227,25 @@ func (r Req) Bytes(secret string) []byte {
 
 // Runner executes the ops of one case on an environment.
 type Runner struct {
-	E          *Env
-	Name       string
-	Bk         *Bks
-	issued     []string       // codes issued in this case, by model number
-	byOp       map[int]string // op index -> code issued by that op
-	random     int64
-	conns      map[int]*websocket.Conn
-	connNo     map[int]int // UA -> model connection number
-	joins      int
-	bookOf     map[int]string // UA -> booking id of the token the connection was bound to (harness knowledge)
-	stats      string
-	Strad      bool // the wall clock ticked during an op
-	lastSec    int64
-	AfterOp    func(orig int, o *Op, out *Out) // called after each executed op (probes)
-	StopOnHang bool                            // end the history at the first request that gets no bytes back within the limit
-	Hung       bool                            // ... which happened
+	E            *Env
+	Name         string
+	Bk           *Bks
+	issued       []string       // codes issued in this case, by model number
+	byOp         map[int]string // op index -> code issued by that op
+	random       int64
+	conns        map[int]*websocket.Conn
+	connNo       map[int]int // UA -> model connection number
+	joins        int
+	bookOf       map[int]string // UA -> booking id of the token the connection was bound to (harness knowledge)
+	stats        string
+	Strad        bool // the wall clock ticked during an op
+	lastSec      int64
+	AfterOp      func(orig int, o *Op, out *Out) // called after each executed op (probes)
+	SocketClosed func(ua int) bool               // tells whether the relay has closed the attempt's socket (set by the harness)
+	Outlived     []int                           // "serverclose" ops whose connection was still listed
+	OpenSocket   []int                           // ... or unlisted but with the socket still open
+	StopOnHang   bool                            // end the history at the first request that gets no bytes back within the limit
+	Hung         bool                            // ... which happened
 }
 
 func NewRunner(e *Env, name string) *Runner {
@@ -361,6 +370,10 @@ func (r *Runner) Run(c *Case) {
 			}
 			continue
 		}
+		if o.K == "wait" { // until the wall clock reads o.T milliseconds; not an operation of the model
+			time.Sleep(time.Until(time.UnixMilli(o.T)))
+			continue
+		}
 		t := r.preOp(&ops)
 		for len(outs) < len(ops) {
 			outs = append(outs, Out{K: "unit"})
@@ -378,6 +391,27 @@ func (r *Runner) Run(c *Case) {
 		case "leave":
 			o.Conn = r.connNo[o.UA]
 			out = r.doLeave(o.UA)
+		case "serverclose":
+			// the relay is expected to have ended this connection by itself: if it is no longer listed the model is
+			// told that the connection ended (OLeave); if it still is, nothing is told and the harness keeps the fact
+			gone := false
+			for k := 0; k < 30 && !gone; k++ {
+				rep, ok := r.listed(o.UA)
+				gone = ok && rep == nil
+				if !gone {
+					time.Sleep(10 * time.Millisecond)
+				}
+			}
+			if !gone {
+				r.Outlived = append(r.Outlived, o.UA)
+				r.postOp(t)
+				continue
+			}
+			if r.SocketClosed != nil && !r.SocketClosed(o.UA) {
+				r.OpenSocket = append(r.OpenSocket, o.UA)
+			}
+			o.K, o.Conn = "leave", r.connNo[o.UA]
+			out = Out{K: "unit"}
 		}
 		r.postOp(t)
 		if r.AfterOp != nil {
